@@ -2,7 +2,7 @@
 """Run the pinned test-suite of /repo (guard off) and compare with /root/.vp/BASELINE.json stable_pass."""
 import json, subprocess, sys, os
 env = dict(os.environ, GOFLAGS="-mod=mod", GOPROXY="off", GOSUMDB="off", GOMAXPROCS="8")  # baseline was recorded with 8 procs (sub-test names embed it)
-p = subprocess.run(["go", "test", "-json", "-vet=off", "-count=1", "-timeout", "25m", "./..."], cwd="/repo", capture_output=True, text=True, env=env)
+p = subprocess.run(["go", "test", "-json", "-vet=off", "-count=1", "-timeout", "25m", "./..."], cwd=os.environ.get("VERIF_REPO","/repo"), capture_output=True, text=True, env=env)
 status = {}
 for line in p.stdout.splitlines():
     try:
